@@ -93,7 +93,7 @@ func c04shape(s string) string {
 var c04ops = []string{"Open", "OpenFile", "Create", "Mkdir", "MkdirAll", "Remove", "RemoveAll", "Stat", "Lstat", "LstatOrStat", "Chmod", "Chown", "Chtimes", "ReadDir", "ReadFile", "WriteFullFile", "Sub",
 	"Rename:1", "Rename:2", "Rename:both", "Symlink:1", "Symlink:2", "Symlink:both"}
 
-var c04subjects = []string{"mem", "kvplain", "mount", "sub", "sub-os", "cache", "tar", "os"}
+var c04subjects = []string{"mem", "kvplain", "mount", "sub", "sub-os", "cache", "tar", "os", "tar-broken"}
 
 // c04parts are the constituent file systems whose state must not change.
 type c04subject struct {
@@ -179,9 +179,22 @@ func newC04Subject(env *core.Env, name string, populatedState bool) (*c04subject
 		s.fs = c
 		s.parts["source"], s.parts["store"] = src, store
 		return s, err
-	case "tar":
+	case "tar", "tar-broken":
 		dst, _ := mem.NewFS()
-		t, err := hptar.NewReaderFS(context.Background(), bytes.NewReader(buildTarVerbatim(items)), hptar.ReaderFSOptions{UnarchiveFS: dst})
+		archive := buildTarVerbatim(items)
+		if name == "tar-broken" {
+			// the archive ends inside its last entry: unpacking fails, and every later call goes through the FS's failure paths
+			// (directories only before it: they are created in the foreground, so nothing is still being written when Done() closes)
+			var dirs []treeItem
+			for _, it := range items {
+				if it.Dir {
+					dirs = append(dirs, it)
+				}
+			}
+			archive = buildTarVerbatim(append(dirs, treeItem{Path: "zz", Perm: 0o644, Data: strings.Repeat("z", 3000)}))
+			archive = archive[:len(archive)-1024-2000]
+		}
+		t, err := hptar.NewReaderFS(context.Background(), bytes.NewReader(archive), hptar.ReaderFSOptions{UnarchiveFS: dst})
 		if err != nil {
 			return nil, err
 		}
@@ -192,6 +205,12 @@ func newC04Subject(env *core.Env, name string, populatedState bool) (*c04subject
 		}
 		s.fs = t
 		s.parts["dest"] = dst
+		if name == "tar-broken" {
+			if t.UnarchiveErr() == nil {
+				return nil, fmt.Errorf("the truncated archive unpacked without error")
+			}
+			return s, nil
+		}
 		return s, t.UnarchiveErr()
 	}
 	p, err := newPopulated(env, name, items)
